@@ -11,6 +11,7 @@ import (
 	"sort"
 	"strconv"
 	"strings"
+	"time"
 
 	"github.com/spq/pkappa2/internal/index/manager"
 )
@@ -198,6 +199,48 @@ func (w *World) ApplyAPI(call string) error {
 		}
 		// Release posts without waiting: a Status round trip makes sure it was executed
 		w.Mgr.Status()
+	case "listen.stall":
+		// a client opens the event stream and never reads it
+		_, closer := w.Mgr.Listen()
+		if w.Listeners == nil {
+			w.Listeners = map[string]func(){}
+		}
+		w.Listeners[arg] = closer
+	case "listen.close":
+		if closer := w.Listeners[arg]; closer != nil {
+			delete(w.Listeners, arg)
+			done := make(chan struct{})
+			go func() { closer(); close(done) }()
+			select {
+			case <-done:
+			case <-time.After(30 * time.Second):
+				w.Wedged = true
+				return fmt.Errorf("%w: the listener's closer did not return within 30 s (the service loop does not take new work)", ErrJobStuck)
+			}
+		}
+	case "storm":
+		// many events in a row: the colour of a tag is changed n times
+		name, ns, _ := strings.Cut(arg, "=")
+		n, _ := strconv.Atoi(ns)
+		done := make(chan error, 1)
+		go func() {
+			for i := 0; i < n; i++ {
+				if err := w.Mgr.UpdateTag(name, manager.UpdateTagOperationUpdateColor(fmt.Sprintf("#%06x", i+1))); err != nil {
+					done <- err
+					return
+				}
+			}
+			done <- nil
+		}()
+		select {
+		case err := <-done:
+			if err != nil {
+				res = "error: " + err.Error()
+			}
+		case <-time.After(30 * time.Second):
+			w.Wedged = true
+			return fmt.Errorf("%w: %d colour updates in a row did not return within 30 s (the service loop does not take new work)", ErrJobStuck, n)
+		}
 	case "restart":
 		if err := w.Restart(); err != nil {
 			return err
